@@ -497,6 +497,27 @@ func runC08(c *eng.Ctx) {
 		c.Expect("CODEC-fid-delta", 2)
 	}
 
+	// ---------------- (4c) index entries are decoded at entry boundaries in both builds
+	strideWalk(c, "STRIDE-walk")
+	// ---------------- (4d) a super block built from another one carries every field (the extra section included)
+	{
+		sbFields := structFields(P, "weed/storage/super_block", "SuperBlock")
+		lits := P.FindCloneLits("weed/storage/super_block", "SuperBlock", 2)
+		for i, l := range lits {
+			var missing []string
+			for _, f := range sbFields {
+				if !l.Present[f] {
+					missing = append(missing, f)
+				}
+			}
+			c.Ob("FIELDS-superblock-clone", fmt.Sprintf("%s literal#%d from %s", l.Func, i, l.Source), len(missing) == 0, l.Pos,
+				"a super block copied field by field from another carries every field; missing: "+strings.Join(missing, ","))
+		}
+		// the matcher is alive (it finds the entry clones of the filer) and knows the struct
+		c.Ob("FIELDS-superblock-clone", "matcher self-test", len(P.FindCloneLits("weed/filer", "Entry", 2)) > 0 && len(sbFields) >= 6, token.NoPos,
+			fmt.Sprintf("clone-literal matcher finds the filer's entry clones; SuperBlock has %d fields; %d super block clone literals on this tree", len(sbFields), len(lits)))
+	}
+
 	// ---------------- (5) NARROW
 	type narrow struct{ pkg, fn string }
 	for _, n := range []narrow{{"weed/storage/needle", "NewVolumeId"}, {"weed/storage/needle", "ReadTTL"}, {"weed/storage/types", "ParseCookie"}, {"weed/storage/types", "ParseNeedleId"}} {
